@@ -68,6 +68,9 @@ func (w *Writer) Marshal(data any) ([]byte, error) {
 func (w *Writer) Write(wr io.Writer, data any) (err error) {
 	w.w = wr
 	_, err = w.encode(data)
+	// The io.Writer is for this call only. Encode and Marshal on the same
+	// Writer must not write to it later.
+	w.w = nil
 
 	return
 }
